@@ -32,7 +32,7 @@ Proof.
   - intros H. assert (y1 = y2 /\ m1 = m2 /\ d1 = d2) as (-> & -> & ->) by lia. reflexivity.
   - intros H. injection H as -> -> ->. lia.
 Qed.
-Lemma civil_step a : 0 <= a -> ymd_lt (civil a) (civil (a + 1)).
+Lemma civil_step a : -719468 <= a -> ymd_lt (civil a) (civil (a + 1)).
 Proof.
   intros Ha. unfold civil.
   set (z := a + 719468). replace (a + 1 + 719468) with (z + 1) by lia.
@@ -49,7 +49,7 @@ Proof.
     destruct (ymd_of_doe (z mod 146097)) as [[y1 m1] d1], (ymd_of_doe (z mod 146097 + 1)) as [[y2 m2] d2].
     unfold ymd_lt, ymd_ltb in *. lia.
 Qed.
-Lemma civil_mono a b : 0 <= a -> a < b -> ymd_lt (civil a) (civil b).
+Lemma civil_mono a b : -719468 <= a -> a < b -> ymd_lt (civil a) (civil b).
 Proof.
   intros Ha Hab. replace b with (a + 1 + Z.of_nat (Z.to_nat (b - a - 1))) by lia.
   induction (Z.to_nat (b - a - 1)) as [|n IH].
@@ -57,7 +57,7 @@ Proof.
   - replace (a + 1 + Z.of_nat (S n)) with ((a + 1 + Z.of_nat n) + 1) by lia.
     eapply ymd_ltb_trans; [exact IH|]. apply civil_step. lia.
 Qed.
-Lemma civil_inj a b : 0 <= a -> 0 <= b -> civil a = civil b -> a = b.
+Lemma civil_inj a b : -719468 <= a -> -719468 <= b -> civil a = civil b -> a = b.
 Proof.
   intros Ha Hb E. destruct (Z.lt_trichotomy a b) as [H|[H|H]]; [|exact H|].
   - pose proof (civil_mono a b Ha H) as M. unfold ymd_lt in M. rewrite E, ymd_ltb_irrefl in M. discriminate.
@@ -75,23 +75,24 @@ Notation append := (append c).
 Notation write := (write sh c).
 Notation step := (step sh c).
 Notation run := (run sh c).
+Notation day_of := (day_of c).
 
 Definition lt_key (a b : rfile) : Prop := fday a < fday b \/ (fday a = fday b /\ fidx a < fidx b).
 (* a file the sink itself named: the date in the name is the civil date of its ghost day number *)
-Definition WfFile (f : rfile) : Prop := fymd f = civil (fday f) /\ 0 <= fday f /\ fseeded f = false.
+Definition WfFile (f : rfile) : Prop := fymd f = civil (fday f) /\ -1 <= fday f /\ fseeded f = false.
 
 Lemma ymd_eqb_refl a : ymd_eqb a a = true.
 Proof. apply ymd_eqb_eq. reflexivity. Qed.
 Lemma key_of_lt a b : WfFile a -> WfFile b -> lt_key a b -> key_ltb sh c a b = true.
 Proof.
   unfold key_ltb; cbn [s_victim std_shape]. intros (Ea & Ha & _) (Eb & Hb & _) [H|[H1 H2]]; rewrite Ea, Eb.
-  - pose proof (civil_mono _ _ Ha H) as M. unfold ymd_lt in M. rewrite M. reflexivity.
+  - pose proof (civil_mono (fday a) (fday b) ltac:(lia) H) as M. unfold ymd_lt in M. rewrite M. reflexivity.
   - rewrite H1, ymd_eqb_refl. assert (E : (fidx a <? fidx b) = true) by lia. rewrite E. cbn. apply orb_true_r.
 Qed.
 Lemma key_not_gt a b : WfFile a -> WfFile b -> lt_key a b -> key_ltb sh c b a = false.
 Proof.
   unfold key_ltb; cbn [s_victim std_shape]. intros (Ea & Ha & _) (Eb & Hb & _) [H|[H1 H2]]; rewrite Ea, Eb.
-  - pose proof (civil_mono _ _ Ha H) as M. unfold ymd_lt in M.
+  - pose proof (civil_mono (fday a) (fday b) ltac:(lia) H) as M. unfold ymd_lt in M.
     assert (N1 : ymd_ltb (civil (fday b)) (civil (fday a)) = false).
     { destruct (ymd_ltb (civil (fday b)) (civil (fday a))) eqn:E; [|reflexivity].
       pose proof (ymd_ltb_trans _ _ _ M E) as T. rewrite ymd_ltb_irrefl in T. discriminate. }
@@ -138,11 +139,16 @@ Proof. reflexivity. Qed.
 
 (* ---------- small facts ---------- *)
 Lemma day_of_mono a b : a <= b -> day_of a <= day_of b.
-Proof. intros H. unfold day_of, DAYMS. lia. Qed.
+Proof. intros H. unfold RotateDefs.day_of, day_at, DAYMS. lia. Qed.
+Lemma day_of_lb t : 0 <= t -> -1 <= day_of t.
+Proof. intros H. unfold RotateDefs.day_of, day_at, tz_ms, DAYMS. lia. Qed.
 Lemma stamp_le g t : 0 <= t -> 0 <= stamp g t <= t.
 Proof. intros H. unfold stamp. destruct g; cbn [gran_ms]; lia. Qed.
 Lemma day_of_stamp g t : 0 <= t -> day_of (stamp g t) = day_of t.
-Proof. intros H. unfold stamp, day_of, DAYMS. destruct g; cbn [gran_ms]; lia. Qed.
+Proof.
+  intros H. unfold stamp, RotateDefs.day_of, day_at, tz_ms, DAYMS.
+  generalize (Z.max (-1440) (Z.min 1440 (ctz c))). intros m. destruct g; cbn [gran_ms]; lia.
+Qed.
 Lemma clamp_range t : 0 <= clamp t <= TMAX.
 Proof. unfold clamp, TMAX, MAXDAY, DAYMS. lia. Qed.
 Lemma clamp_mono a b : a <= b -> clamp a <= clamp b.
@@ -180,7 +186,7 @@ Definition KeySorted (w : world) : Prop := StronglySorted lt_key (all_rot w).
 Record Inv2 (w : world) : Prop := {
   c_clock : 0 <= act_mt w <= now w;
   c_dates : Forall (fun f => fday f <= day_of (act_mt w)) (all_rot w);
-  c_cur : inited w = true -> 0 <= cur w <= day_of (now w) /\ Forall (fun f => fday f <= cur w) (all_rot w);
+  c_cur : inited w = true -> -1 <= cur w <= day_of (now w) /\ Forall (fun f => fday f <= cur w) (all_rot w);
   c_wf : Forall WfFile (all_rot w);
   c_sorted : KeySorted w;
   c_gone : 2 <= cN c -> gone w <> [] -> rot w <> [];
@@ -256,7 +262,7 @@ Proof.
   - rewrite Hall, Hds. apply Forall_app; split.
     + rewrite Forall_forall in *. intros g Hin. specialize (Hcf g Hin). lia.
     + constructor; [cbn; lia|constructor].
-  - intros _. split; [pose proof (day_of_mono 0 (now w) ltac:(lia)); unfold day_of at 1 in H; cbn in H; lia|].
+  - intros _. split; [pose proof (day_of_lb (now w) ltac:(lia)); lia|].
     rewrite Hall. apply Forall_app; split.
     + rewrite Forall_forall in *. intros g Hin. specialize (Hcf g Hin). lia.
     + constructor; [cbn; lia|constructor].
@@ -300,7 +306,7 @@ Lemma marked_inv2 w : Inv2 w -> Inv2 (marked w).
 Proof.
   intros [Hclk Hd Hc Hwf Hs Hg Hg0 Htm]. constructor; cbn; try assumption. intros _.
   pose proof (day_of_mono _ _ (proj2 Hclk)) as Hm.
-  pose proof (day_of_mono 0 (act_mt w) (proj1 Hclk)) as H0. change (day_of 0) with 0 in H0.
+  pose proof (day_of_lb (act_mt w) (proj1 Hclk)) as H0.
   destruct (0 <? size (act w)); split; try lia; try exact Hd.
   unfold all_rot in *. rewrite Forall_forall in *. intros g Hin. specialize (Hd g Hin). lia.
 Qed.
@@ -308,7 +314,7 @@ Lemma with_cur_inv2 w : Inv2 w -> Inv2 (with_state w (inited w) (day_of (now w))
 Proof.
   intros [Hclk Hd Hc Hwf Hs Hg Hg0 Htm]. constructor; cbn; try assumption.
   intros Hi. pose proof (day_of_mono _ _ (proj2 Hclk)) as Hm.
-  pose proof (day_of_mono 0 (now w) ltac:(lia)) as H0. change (day_of 0) with 0 in H0.
+  pose proof (day_of_lb (now w) ltac:(lia)) as H0.
   split; [lia|]. unfold all_rot in *. rewrite Forall_forall in *. intros g Hin. specialize (Hd g Hin). lia.
 Qed.
 
@@ -710,7 +716,7 @@ Qed.
 Lemma lt_key_names a b : WfFile a -> WfFile b -> lt_key a b -> (fymd a, fidx a) <> (fymd b, fidx b).
 Proof.
   intros (Ea & Ha & _) (Eb & Hb & _) H E. injection E as E1 E2. rewrite Ea, Eb in E1.
-  apply civil_inj in E1; [|assumption|assumption]. unfold lt_key in H. lia.
+  apply civil_inj in E1; [|lia|lia]. unfold lt_key in H. lia.
 Qed.
 Lemma sorted_nodup l : StronglySorted lt_key l -> Forall WfFile l -> NoDup (map (fun f => (fymd f, fidx f)) l).
 Proof.
@@ -780,7 +786,7 @@ Qed.
 Lemma idx_of_lt a b : WfFile a -> WfFile b -> lt_key a b -> idx_ltb a b = true.
 Proof.
   unfold idx_ltb. intros (Ea & Ha & _) (Eb & Hb & _) [H|[H1 H2]]; rewrite Ea, Eb.
-  - pose proof (civil_mono _ _ Ha H) as M. unfold ymd_lt in M. rewrite M. reflexivity.
+  - pose proof (civil_mono (fday a) (fday b) ltac:(lia) H) as M. unfold ymd_lt in M. rewrite M. reflexivity.
   - rewrite H1, ymd_eqb_refl. assert (E : (fidx a <? fidx b) = true) by lia. rewrite E. apply orb_true_r.
 Qed.
 Lemma chain_idx l : StronglySorted lt_key l -> Forall WfFile l -> chain_b idx_ltb l = true.
@@ -908,7 +914,7 @@ Proof.
   specialize (Hall b Hb).
   destruct (Hwf a ltac:(apply in_or_app; right; left; reflexivity)) as (Ea & Ha & _).
   destruct (Hwf b ltac:(apply in_or_app; right; right; exact Hb)) as (Eb & Hb0 & _).
-  rewrite Ea, Eb in Hy. apply civil_inj in Hy; [|assumption|assumption]. unfold lt_key in Hall. lia.
+  rewrite Ea, Eb in Hy. apply civil_inj in Hy; [|lia|lia]. unfold lt_key in Hall. lia.
 Qed.
 Theorem T_never_overwritten : NoDup (map (fun f => (fymd f, fidx f)) (gone w ++ rot w)).
 Proof. destruct T_keys_increase as [Hs Hwf]. apply sorted_nodup; assumption. Qed.
